@@ -48,7 +48,7 @@ PROPS['C05'] = dict(
 )
 PROPS['C07'] = dict(
     props_file='Props/C07.v', kernels=[],
-    step_runs={Q: GEN + [('contention', 80, 40)], T: [('generic', 1500, 40), ('contention', 800, 60), ('requests', 800, 60)]},
+    step_runs={Q: GEN + [('contention', 80, 40), ('routes', 80, 30)], T: [('generic', 1500, 40), ('contention', 800, 60), ('requests', 800, 60), ('routes', 1500, 40)]},
     known_keys={'base_activity_away_from_base': ['activity'], 'station_activity_away_from_station': ['activity']},
 )
 PROPS['C09'] = dict(
